@@ -98,6 +98,26 @@ func fromSortedLast(c *Ctx, src *Term, lastM string) bool {
 	ok := false
 
 	src.Walk(func(x *Term) bool {
+		// sorted in place: a buffer filled from the keys of the last-validator map and then
+		// handed to an in-place sort of the standard library
+		if !ok && x.Op == "opaque" && x.Name == "sorted" && len(x.Args) == 2 {
+			// every element written before the sort derives from a key of the map, and the buffer
+			// is sized by the map
+			buf := x.Args[0]
+			fill := true
+			for buf.Op == "updidx" {
+				if !strings.Contains(buf.Args[2].Key(), "range:("+lastM+")") {
+					fill = false
+				}
+				buf = buf.Args[0]
+			}
+			for buf.Op == "deref" {
+				buf = buf.Args[0]
+			}
+			if fill && buf.Op == "make" && len(buf.Args) > 0 && buf.Args[0].Key() == "builtin.len("+lastM+")" {
+				ok = true
+			}
+		}
 		if ok || x.Op != "call" || !strings.Contains(x.Name, "opchild/") {
 			return !ok
 		}
@@ -163,6 +183,24 @@ func lastMapOn(p *Path) string {
 		for _, a := range ev.Call.Args {
 			if a.Op == "make" && a.Name == "map" {
 				return a.Key()
+			}
+		}
+	}
+	// ... or the map-typed local that the removal loop ranges over
+	for i := range p.Events {
+		ev := &p.Events[i]
+		for _, t := range []*Term{ev.Cond, ev.Call, ev.Val} {
+			if t == nil {
+				continue
+			}
+			t.Walk(func(x *Term) bool {
+				if found == "" && x.Op == "range" && len(x.Args) == 1 && x.Args[0].Op == "make" && x.Args[0].Name == "map" {
+					found = x.Args[0].Key()
+				}
+				return found == ""
+			})
+			if found != "" {
+				return found
 			}
 		}
 	}
